@@ -430,3 +430,68 @@ func (b *built) probeNoArgs(args []LField) (stage string, client bool, calls int
 		return "timeout", false, atomic.LoadInt32(b.callsN)
 	}
 }
+
+// genSharedVars: a history of operations over one field that share ONE variables map.  Every operation declares the same
+// variable names; the first ones give them defaults (different values), the last ones declare them without default (for
+// nullable arguments) - nothing is supplied, so each operation must see its own defaults, respectively nil / zero.
+func genSharedVars(r *vh.Rng) (Case, bool) {
+	td := pickTop(r)
+	m := mtyOf(td.reflectType())
+	c := Case{Ty: td, Class: "shared-variables", Expect: "echo", SharedVars: true}
+	clean := func(w *Lit) bool {
+		for _, f := range w.O {
+			if f.V.K != "null" && hasNull(f.V) {
+				return false
+			}
+		}
+		return true
+	}
+	shared := map[string]interface{}{}
+	if r.Bool() {
+		shared["unrelated"] = 1
+	}
+	n := 2 + r.Intn(2)
+	for k := 0; k < n; k++ {
+		var v *Val
+		var w *Lit
+		for try := 0; ; try++ {
+			v, w = genVal(r, m, 2)
+			if clean(w) {
+				break
+			}
+			if try > 40 {
+				return Case{}, false
+			}
+		}
+		if k == n-1 && r.Bool() {
+			// last operation: the nullable arguments are left to variables without default
+			v2 := &Val{K: "struct"}
+			for i, f := range m.Fields {
+				switch f.T.K {
+				case "ptr":
+					w.O[i].V = &Lit{K: "null"}
+					v2.Fs = append(v2.Fs, VField{f.Name, &Val{K: "nil"}})
+				case "opt":
+					w.O[i].V = &Lit{K: "null"}
+					v2.Fs = append(v2.Fs, VField{f.Name, zeroVal(f.T.Elem)})
+				default:
+					v2.Fs = append(v2.Fs, v.Fs[i])
+				}
+			}
+			v = v2
+		}
+		s := Send{Transport: "default", Vars: shared, Defs: []VarDef{{Name: "nul"}}, Sent: v}
+		for i, f := range w.O {
+			name := fmt.Sprintf("d%d", i)
+			s.Args = append(s.Args, LField{f.N, &Lit{K: "var", S: name}})
+			if f.V.K == "null" {
+				s.Defs = append(s.Defs, VarDef{Name: name})
+				continue
+			}
+			s.Defs = append(s.Defs, VarDef{Name: name, Default: deNull(f.V)})
+		}
+		c.Sends = append(c.Sends, s)
+	}
+	c.Sent = c.Sends[0].Sent
+	return c, true
+}
